@@ -1294,7 +1294,7 @@ def support_psf_sim(ctx, n):
 
 # --------------------------------------------------------------------------
 def run(ctx):
-    ctx.build(FILES)
+    ctx.build_with_translator(FILES)
     thorough = ctx.tier == 'thorough'
     ctx.cov['rule'] = (
         'random tables (0..8 rows) for an integer-valued polynomial astropy model on the 1/8-pixel lattice: '
